@@ -126,50 +126,75 @@ var hostileFixed = []string{
 }
 
 // estimateExpansion bounds the number of tokens after FOR expansion from above
-// (product of FOR counts times tokens, every identifier on a FOR line taken as
-// the largest literal of the file).  Inputs above the bound are not generated:
+// (product of FOR counts times tokens; a count is bounded by the product of its
+// literals and of the bounds of the EQUs it names, an unknown identifier by the
+// largest literal of the file).  Inputs above the bound are not generated:
 // that blow-up is the documented semantics of FOR, not a defect.
 func estimateExpansion(text string) float64 {
 	toks := 0
 	maxLit := 1.0
 	fields := func(l string) []string {
+		if k := strings.IndexByte(l, ';'); k >= 0 {
+			l = l[:k]
+		}
 		return strings.FieldsFunc(l, func(r rune) bool {
 			return !(r >= '0' && r <= '9' || r >= 'a' && r <= 'z' || r >= 'A' && r <= 'Z' || r == '_' || r == '.')
 		})
 	}
 	lines := strings.Split(text, "\n")
+	equ := map[string][]string{} // name -> fields of the value
 	for _, l := range lines {
-		for _, f := range fields(l) {
+		fs := fields(l)
+		for _, f := range fs {
 			toks++
 			if v, err := strconv.ParseFloat(f, 64); err == nil && v > maxLit {
 				maxLit = v
 			}
 		}
 		toks += 4
+		for k, f := range fs {
+			if strings.EqualFold(f, "equ") {
+				for _, name := range fs[:k] {
+					equ[name] = fs[k+1:]
+				}
+			}
+		}
+	}
+	// bound of a list of expression fields: product of the literals (>1) and of the bounds of the identifiers
+	var bound func(fs []string, depth int) float64
+	bound = func(fs []string, depth int) float64 {
+		b := 1.0
+		for _, f := range fs {
+			if v, err := strconv.ParseFloat(f, 64); err == nil {
+				if v > 1 {
+					b *= v
+				}
+			} else if val, ok := equ[f]; ok && depth < 8 {
+				if x := bound(val, depth+1); x > 1 {
+					b *= x
+				}
+			} else if !strings.EqualFold(f, "for") {
+				b *= maxLit // unknown identifier: the largest literal of the file
+			}
+			if b > 1e12 {
+				return b
+			}
+		}
+		return b
 	}
 	prod := 1.0
 	for _, l := range lines {
 		fs := fields(l)
-		isFor := false
-		for _, f := range fs {
+		at := -1
+		for k, f := range fs {
 			if strings.EqualFold(f, "for") {
-				isFor = true
+				at = k
 			}
 		}
-		if !isFor {
+		if at < 0 {
 			continue
 		}
-		cnt := 1.0
-		for _, f := range fs {
-			if v, err := strconv.ParseFloat(f, 64); err == nil {
-				if v > 1 {
-					cnt *= v
-				}
-			} else if !strings.EqualFold(f, "for") {
-				cnt *= maxLit
-			}
-		}
-		prod *= cnt
+		prod *= bound(fs[at+1:], 0)
 		if prod > 1e12 {
 			break
 		}
